@@ -268,6 +268,9 @@ impl<'a, 'tcx> BodyDump<'a, 'tcx> {
                 if let Some(pv) = self.promoted_value(p) {
                     let _ = write!(o, ",\"pv\":{}", pv);
                 }
+                if let Some((d, a)) = self.promoted_source(p) {
+                    let _ = write!(o, ",\"pdef\":{},\"pargs\":{}", js(&d), js(&a));
+                }
             } else {
                 let _ = write!(o, ",\"cdef\":{}", js(&self.cx.path(uv.def)));
                 let _ = write!(o, ",\"cargs\":{}", js(&self.cx.path_args(uv.def, uv.args)));
@@ -294,6 +297,53 @@ impl<'a, 'tcx> BodyDump<'a, 'tcx> {
         let pb = promoted.get(p)?;
         let sub = BodyDump { cx: self.cx, body: pb, def: self.def, tenv: self.tenv, promoted: None };
         sub.local_value(RETURN_PLACE, 0)
+    }
+
+    /// the named constant a promoted refers to (`&<T as Trait>::CONST` and chains of refs / casts of it)
+    fn promoted_source(&self, p: Promoted) -> Option<(String, String)> {
+        let promoted = self.promoted?;
+        let pb = promoted.get(p)?;
+        let sub = BodyDump { cx: self.cx, body: pb, def: self.def, tenv: self.tenv, promoted: None };
+        sub.local_source(RETURN_PLACE, 0)
+    }
+
+    fn local_source(&self, l: Local, depth: usize) -> Option<(String, String)> {
+        if depth > 6 {
+            return None;
+        }
+        let mut found: Option<&Rvalue<'tcx>> = None;
+        for data in self.body.basic_blocks.iter() {
+            for st in &data.statements {
+                if let StatementKind::Assign(b) = &st.kind {
+                    let (pl, rv) = &**b;
+                    if pl.local == l && pl.projection.is_empty() {
+                        if found.is_some() {
+                            return None;
+                        }
+                        found = Some(rv);
+                    }
+                }
+            }
+        }
+        let rv = found?;
+        let opv = |op: &Operand<'tcx>| -> Option<(String, String)> {
+            match op {
+                Operand::Constant(c) => match c.const_ {
+                    Const::Unevaluated(uv, _) if uv.promoted.is_none() => {
+                        Some((self.cx.path(uv.def), self.cx.path_args(uv.def, uv.args)))
+                    }
+                    _ => None,
+                },
+                Operand::Copy(p) | Operand::Move(p) if p.projection.is_empty() => self.local_source(p.local, depth + 1),
+                _ => None,
+            }
+        };
+        match rv {
+            Rvalue::Use(op, ..) => opv(op),
+            Rvalue::Ref(_, _, p) if p.projection.is_empty() => self.local_source(p.local, depth + 1),
+            Rvalue::Cast(_, op, _) => opv(op),
+            _ => None,
+        }
     }
 
     fn local_value(&self, l: Local, depth: usize) -> Option<String> {
